@@ -1,4 +1,5 @@
 import RsslVerif.Lemmas.GenSemStmt
+import RsslVerif.Spec.SemIeee
 /-!
 # C01 — HLSL export preserves the meaning of every accepted program (scalar subset)
 
@@ -34,11 +35,32 @@ theorem intrinsic_table_is_identity :
 
 /-- the expansion of the two forms, the `Sequence` fold, the `Cast` arm and the ternary arm of the source have the
 shape `Model.GenHlsl` mirrors, and so has the label handling of `generate_scope_block` / `generate_statement`
-(textual facts re-extracted on every run). -/
+(textual facts re-extracted on every run).  `statementArmsAsModelled`: `match &statement.kind` has exactly one arm per
+`ir::StatementKind`, none guarded, each textually the modelled one; `ifElseArmAsModelled`: the one IfElse arm emits the
+condition unmodified and both blocks in order, whether or not a block is empty (seeded mutant C01-3 put a guarded arm
+in front that emits `if (<opposite of c>) B` for an empty first block: both facts become `false`);
+`expressionArmsAsModelled`: the same for `match expr` of `generate_expression` (one unguarded arm per `ir::Expression`
+variant; leaf, operator, call and ternary arms textually as modelled). -/
 theorem exporter_shape_as_modelled :
     unaryFormAsModelled = true ∧ binaryFormAsModelled = true ∧ sequenceRightNested = true ∧
     sequenceAssertsTwo = true ∧ castDropsOnlyLiteralTargets = true ∧ ternaryInOrder = true ∧
-    scopeBlockAsModelled = true ∧ labelsEmittedEmpty = true := by decide
+    scopeBlockAsModelled = true ∧ labelsEmittedEmpty = true ∧
+    statementArmsAsModelled = true ∧ ifElseArmAsModelled = true ∧ statementWrapperAsModelled = true ∧
+    forInitAsModelled = true ∧ expressionArmsAsModelled = true ∧ helperBodiesAsModelled = true := by decide
+
+/-- **statement attributes** (`[branch]`, `[flatten]`, `[unroll]`, `[unroll(n)]`, `[loop]`, `[fastopt]`,
+`[allow_uav_condition]`; hints without a meaning in either semantics, outside `Ir.Stmt`): the exporter's table and the
+type checker's table (both re-extracted) are inverse to each other — every attribute variant is emitted under a name the
+type checker reads back as that very variant, every variant is emitted, no two variants share a name, and only
+`Unroll(Some(v))` carries an argument (the count `v` as an unsuffixed literal).  So the attribute written in the source
+is the attribute emitted; that it stays on its statement is `statementWrapperAsModelled` (and the harness's oracle). -/
+theorem statement_attribute_names_roundtrip :
+    (∀ e ∈ statementAttributeEmitted, (e.2.2.1, e.1) ∈ statementAttributeParsed) ∧
+    (∀ k ∈ statementAttributeKinds, ∃ e ∈ statementAttributeEmitted, e.1 = k) ∧
+    (∀ e ∈ statementAttributeEmitted, e.1 ∈ statementAttributeKinds) ∧
+    (∀ e₁ ∈ statementAttributeEmitted, ∀ e₂ ∈ statementAttributeEmitted, e₁.2.2.1 = e₂.2.2.1 → e₁.1 = e₂.1) ∧
+    (∀ p₁ ∈ statementAttributeParsed, ∀ p₂ ∈ statementAttributeParsed, p₁.1 = p₂.1 → p₁.2 = p₂.2) ∧
+    (∀ e ∈ statementAttributeEmitted, (e.2.2.2 = "count" ↔ (e.1 = "Unroll" ∧ e.2.1 = "Some(v)"))) := by decide
 
 /-- **literals**: whatever `generate_literal` emits for a constant has the constant's value, and its static type is the
 constant's type — except that a typed `Int32` constant becomes an *unsuffixed* literal (static type "literal int"),
@@ -256,6 +278,61 @@ theorem cast_to_literal_dropped_changes_meaning :
     ∃ a, genExpr cx0 eWitness = .ok a ∧
       (Ir.eval W0 eWitness σt).map (·.1) = some (.b true) ∧ (Ast.eval W0 env0 a σt).map (·.1) = some (.b false) := by
   refine ⟨.bin .GreaterThan (.bin .Add (.lit (.intUntyped 2147483647)) (.ident "l")) (.lit (.intUntyped 0)), rfl, ?_, ?_⟩ <;> decide
+
+/-! ## the comparisons of a `Prim` are not each other's negations (seeded mutant C01-3) -/
+
+/-- `P0` with the IEEE-754 comparisons and conversions (`Spec/SemIeee`, the drivers' concrete interpretation) -/
+def Pnan : Prim := P0.withIeee
+def Wnan : World := { P := Pnan, phi := fun _ _ _ => none, sig := fun _ => none }
+
+/-- quiet NaN and 1.0 -/
+def qnan : BitVec 32 := 0x7FC00000#32
+def one32 : BitVec 32 := 0x3F800000#32
+
+/-- `gen_sem_*` quantify over every `Prim`, and a `Prim` has six independent comparison functions: nothing relates `>=`
+to `<`.  Under the IEEE-754 interpretation with a NaN operand `a >= b` is *not* `!(a < b)` (both are false), likewise
+for the other three ordering pairs, and `a == a`, `a <= a` are false.  So an exporter may not replace a comparison by
+"the opposite comparison" of the negated condition: the theorems would not hold for that exporter, and this is the
+interpretation that separates them. -/
+theorem opposite_comparison_is_not_negation :
+    ∃ (P : Prim) (a b : BitVec 32),
+      P.fcmp .ge a b ≠ (!P.fcmp .lt a b) ∧ P.fcmp .gt a b ≠ (!P.fcmp .le a b) ∧
+      P.fcmp .le a b ≠ (!P.fcmp .gt a b) ∧ P.fcmp .lt a b ≠ (!P.fcmp .ge a b) ∧
+      P.fcmp .eq a a = false ∧ P.fcmp .le a a = false ∧ P.fcmp .ne a a = true :=
+  ⟨Pnan, qnan, one32, by decide⟩
+
+/-- float locals `l`, `ll`, int local `lll` -/
+def cxF : Ctx := { cx0 with vty := fun x => match x with | .loc 0 => .float | .loc 1 => .float | _ => .int }
+def envF : Ast.Env := { env0 with vty := cxF.vty }
+
+/-- `if (l < ll) { } else { lll = 1; }` -/
+def sIfElse : Ir.Stmt :=
+  .ifElse (.op .LessThan (.cons (.var 0) (.cons (.var 1) .nil))) .nil
+    (.cons (.expr (.op .Assignment (.cons (.var 2) (.cons (.lit (.int32 1)) .nil)))) .nil)
+
+/-- what seeded mutant C01-3 emits for it: `if (l >= ll) { lll = 1; }` -/
+def aOpposite : HlslAst.Stmt :=
+  .ifThen (.bin .GreaterEqual (.ident "l") (.ident "ll"))
+    (.block (.cons (.expr (.bin .Assignment (.ident "lll") (.lit (.intUntyped 1)))) .nil))
+
+/-- `l` = NaN, `ll` = 1.0, `lll` = 0 -/
+def σnan : Store := fun x => match x with | .loc 0 => .f qnan | .loc 1 => .f one32 | _ => .i 0
+
+/-- the flow and the final value of `lll` -/
+def obs3 (r : SR) : Option (Flow × Val) := r.map fun p => (p.1, p.2 (.loc 2))
+
+/-- **negation witness for the rewrite of seeded mutant C01-3.**  The exporter as modelled emits
+`if (l < ll) { } else { lll = 1; }` for the IR statement (both blocks, in order, the condition unmodified) and that tree
+means what the IR means (an instance of `gen_sem_stmt`: `lll = 1` when `l` is NaN); the tree with the "opposite"
+condition and only the second block, `if (l >= ll) { lll = 1; }`, leaves `lll = 0` on the same store. -/
+theorem ifelse_opposite_condition_changes_meaning :
+    ∃ a, genStmt cxF sIfElse = .ok a ∧
+      a = .ifElse (.bin .LessThan (.ident "l") (.ident "ll")) (.block .nil)
+            (.block (.cons (.expr (.bin .Assignment (.ident "lll") (.lit (.intUntyped 1)))) .nil)) ∧
+      obs3 (Ir.exec Wnan 1 .run sIfElse σnan) = some (.normal, .i 1) ∧
+      obs3 (Ast.exec Wnan envF .int 1 .run a σnan) = some (.normal, .i 1) ∧
+      obs3 (Ast.exec Wnan envF .int 1 .run aOpposite σnan) = some (.normal, .i 0) := by
+  refine ⟨_, rfl, rfl, ?_, ?_, ?_⟩ <;> decide
 
 /-! ## non-vacuity -/
 
